@@ -400,8 +400,8 @@ func carryConsumed(call *ssa.Call, idx int) (bool, string) {
 
 func ruleLinMap(c *Ctx, prefix string) {
 	pkgB := modPath + "/plugins/allocators/bitmap"
-	toOff := c.P.Func(pkgB, "*IPv4Allocator", "toOffset")
-	toIP := c.P.Func(pkgB, "*IPv4Allocator", "toIP")
+	toOff := c.P.Anchor("toOffset")
+	toIP := c.P.Anchor("toIP")
 	ctor := c.P.Func(pkgB, "", "NewIPv4Allocator")
 	if toOff == nil || toIP == nil || ctor == nil {
 		c.R.Fatalf("ANCHOR-UNRESOLVED: IPv4Allocator.toOffset/toIP/NewIPv4Allocator")
